@@ -7,6 +7,8 @@ import (
 	"go/types"
 	"sort"
 	"strings"
+
+	"golang.org/x/tools/go/cfg"
 )
 
 // RQ7: constructor nil-contract (C12: "parsing returns a non-nil AST without panicking").
@@ -428,4 +430,180 @@ func rq8NodeInfoGuards(w *World) {
 		})
 	}
 	w.floor("FileInfo.items index expressions in NodeInfo methods", n, 5)
+}
+
+// RQ10 (C12: "converting the AST to a descriptor proto never panics"): constant-index expressions
+// in the AST→descriptor conversion and basic validation (parser/result.go, parser/validate.go).
+// These functions run with keep-going reporters: after an error has been *reported* execution
+// continues, so "the empty case was already reported above" is not a guard. Every x[K] with a
+// constant K on a slice or string must be dominated by a length test of the same expression that
+// implies len(x) > K (must-dataflow with branch facts from len(x) > c, >= c, != 0, == 0), or be in
+// the reviewed table below.
+func rq10ConstIndexGuards(w *World) {
+	w.rule("RQ10")
+	p := w.pkg("parser")
+	if p == nil {
+		return
+	}
+	info := p.TypesInfo
+	reviewed := map[string]string{
+		"parser.(*result).asGroupDescriptors|group.Name.Val[0]": "an identifier token is never empty (the lexer only produces _NAME for at least one identifier character)",
+	}
+	n := 0
+	for _, b := range allFuncBodies(p) {
+		if b.Lit != nil {
+			continue
+		}
+		fn := w.Fset.Position(b.Decl.Pos()).Filename
+		if !strings.HasSuffix(fn, "parser/result.go") && !strings.HasSuffix(fn, "parser/validate.go") {
+			continue
+		}
+		type site struct {
+			ix *ast.IndexExpr
+			k  int64
+		}
+		var sites []site
+		ast.Inspect(b.Body, func(x ast.Node) bool {
+			ix, ok := x.(*ast.IndexExpr)
+			if !ok {
+				return true
+			}
+			tv, ok := info.Types[ix.Index]
+			if !ok || tv.Value == nil {
+				return true
+			}
+			t := info.TypeOf(ix.X)
+			if t == nil {
+				return true
+			}
+			switch u := t.Underlying().(type) {
+			case *types.Slice:
+			case *types.Basic:
+				if u.Info()&types.IsString == 0 {
+					return true
+				}
+			default:
+				return true
+			}
+			if tvx, ok := info.Types[ix.X]; ok && tvx.Value != nil {
+				return true // constant string
+			}
+			var k int64
+			fmt.Sscan(tv.Value.ExactString(), &k)
+			sites = append(sites, site{ix, k})
+			return true
+		})
+		if len(sites) == 0 {
+			continue
+		}
+		g := buildCFG(info, b.Body)
+		d := &Dataflow{G: g, Must: true, Init: Facts{}}
+		d.Transfer = func(nd ast.Node, in Facts) Facts {
+			out := in
+			if as, ok := nd.(*ast.AssignStmt); ok {
+				for _, l := range as.Lhs {
+					ls := types.ExprString(l)
+					for k := range out {
+						if strings.HasPrefix(k, "lengt:") {
+							e := strings.SplitN(strings.TrimPrefix(k, "lengt:"), "§", 2)[0]
+							if e == ls || strings.HasPrefix(e, ls+".") || strings.HasPrefix(e, ls+"[") {
+								out = out.without(k)
+							}
+						}
+					}
+				}
+			}
+			return out
+		}
+		d.Branch = func(leaf ast.Expr, truth bool, s Facts) Facts {
+			be, ok := ast.Unparen(leaf).(*ast.BinaryExpr)
+			if !ok {
+				return s
+			}
+			c, ok := ast.Unparen(be.X).(*ast.CallExpr)
+			if !ok || !isBuiltinCall(info, c, "len") || len(c.Args) != 1 {
+				return s
+			}
+			tv, ok := info.Types[be.Y]
+			if !ok || tv.Value == nil {
+				return s
+			}
+			var cst int64
+			fmt.Sscan(tv.Value.ExactString(), &cst)
+			op := be.Op
+			if !truth {
+				switch op {
+				case token.GTR:
+					op = token.LEQ
+				case token.GEQ:
+					op = token.LSS
+				case token.LSS:
+					op = token.GEQ
+				case token.LEQ:
+					op = token.GTR
+				case token.EQL:
+					op = token.NEQ
+				case token.NEQ:
+					op = token.EQL
+				}
+			}
+			// greatest m with len > m established
+			var m int64 = -1
+			switch op {
+			case token.GTR:
+				m = cst
+			case token.GEQ:
+				m = cst - 1
+			case token.NEQ:
+				if cst == 0 {
+					m = 0
+				}
+			case token.EQL:
+				m = cst - 1
+			}
+			out := s
+			for j := int64(0); j <= m && j < 8; j++ {
+				out = out.with(fmt.Sprintf("lengt:%s§%d", types.ExprString(c.Args[0]), j))
+			}
+			return out
+		}
+		d.Run()
+		seen := map[*ast.IndexExpr]bool{}
+		d.Walk(func(_ *cfg.Block, nd ast.Node, before Facts) {
+			ast.Inspect(nd, func(y ast.Node) bool {
+				if _, isLit := y.(*ast.FuncLit); isLit {
+					return false
+				}
+				ix, ok := y.(*ast.IndexExpr)
+				if !ok || seen[ix] {
+					return true
+				}
+				for _, st := range sites {
+					if st.ix != ix {
+						continue
+					}
+					seen[ix] = true
+					n++
+					key := "const-index|" + b.Label + "|" + types.ExprString(ix)
+					st8 := d.withinExprState(nd, ix, before)
+					if st8[fmt.Sprintf("lengt:%s§%d", types.ExprString(ix.X), st.k)] {
+						w.ok(key, ix.Pos(), fmt.Sprintf("dominated by a length test establishing len(%s) > %d", types.ExprString(ix.X), st.k))
+					} else if why, ok := reviewed[b.Label+"|"+types.ExprString(ix)]; ok {
+						w.ok(key, ix.Pos(), "reviewed: "+why)
+					} else {
+						w.violation(key, ix.Pos(), fmt.Sprintf("%s is indexed at %d without a dominating test that len(%s) > %d: these functions keep running after an error was reported (keep-going reporter), so an earlier 'is empty' report does not protect the index — ResultFromAST panics with index out of range", types.ExprString(ix.X), st.k, types.ExprString(ix.X), st.k))
+					}
+				}
+				return true
+			})
+		})
+		for _, st := range sites {
+			if !seen[st.ix] {
+				n++
+				// inside a function literal or unreachable block: decide syntactically as undecided
+				w.undecided("const-index|"+b.Label+"|"+types.ExprString(st.ix), st.ix.Pos(), "constant index inside a function literal or unreachable code: not analysed")
+			}
+		}
+	}
+	w.floor("constant-index expressions in parser/result.go and parser/validate.go", n, 5)
 }
